@@ -534,6 +534,12 @@ func (s *Store) AuthRequestByID(ctx context.Context, id string) (models.AuthRequ
 		}
 		return nil, injected(kind)
 	}
+	if kind == "typednil" {
+		// the idiom "rec, err := load(id); return rec, err": the error comes with a nil pointer of the record's type, which is
+		// not a nil interface value
+		c.Err = ErrInjected.Error()
+		return (*AuthRequest)(nil), injected(kind)
+	}
 	if kind != "" {
 		c.Err = ErrInjected.Error()
 		return nil, injected(kind)
